@@ -312,6 +312,9 @@ class RunChild(Stage):
             report = sc.path('report.json')
             spec = sc.write('spec.json', json.dumps(dict(report=report, chunks=[], exit=0)))
             rc, out, err = cli.run_main(['-C', '-r', cli.PY, child] + after, stdin=b'q\n', extra_env=dict(WDV_CHILD_SPEC=spec))
+            if rc is None or b'Failed to join subprocess thread' in err:
+                res.label('timeout(inconclusive)')
+                return res
             if not os.path.exists(report):
                 res.bad('program-not-started', '%r: rc=%r err=%r' % (after, rc, err[-300:]))
                 return res
